@@ -41,6 +41,8 @@ func init() {
 				Edits: []Edit{{File: "channel/channel.go", Old: "cleanLines[i] = bytes.TrimRight(l, \" \")", New: "cleanLines[i] = bytes.TrimRight(l, \" \\t\")"}}},
 			{ID: "C01-fuzzy-no-consume", Desc: "fuzzy matcher does not consume the matched byte", Rule: "C01/fuzzy-consume",
 				Edits: []Edit{{File: "util/bytes.go", Old: "return true, output[idx+1:]", New: "return true, output[idx:]"}}},
+			{ID: "C01-newline-searched-in-whole-buffer", Desc: "line-boundary snap searches the whole buffer", Rule: "C01/search-depth",
+				Edits: []Edit{{File: "channel/read.go", Old: "partitionIdx := bytes.Index(prb, []byte(\"\\n\"))", New: "partitionIdx := bytes.Index(rb, []byte(\"\\n\"))"}}},
 			{ID: "C01-last-first", Desc: "SendCommands sends the last command first", Rule: "C01/one-response-per-command",
 				Edits: []Edit{{File: "driver/generic/sendcommands.go", Old: "\tfor _, input := range commands[:len(commands)-1] {", New: "\tfor _, input := range commands[1:] {"}}},
 			{ID: "C01-sendcommand-twice", Desc: "sendCommand sends the command twice when it failed", Rule: "C01/tx-seq",
@@ -594,6 +596,7 @@ func checkSearchDepth(c *Ctx, r *Report) {
 	pp := EnumeratePaths(c, prb, &dtConfig{IsAtomCall: func(call *ssa.Call) bool { return true }})
 	okSuffix := len(pp) > 0
 	okWhole := false
+	okSnap, snapMsg := true, ""
 	rb, sd := "param:"+prb.Params[0].Name(), "param:"+prb.Params[1].Name()
 	msg := ""
 	for _, p := range pp {
@@ -616,6 +619,7 @@ func checkSearchDepth(c *Ctx, r *Report) {
 			msg = "returns " + ret
 			continue
 		}
+		cur := rb
 		for rest != "" {
 			if !strings.HasPrefix(rest, "[") {
 				okSuffix = false
@@ -645,9 +649,19 @@ func checkSearchDepth(c *Ctx, r *Report) {
 				msg = "the search window has an upper bound (" + ret + "): the tail of the buffer, where the prompt is, is cut off"
 				break
 			}
+			// a cut at an index found by searching must be a cut of the very slice that was searched
+			low := strings.TrimSuffix(inner, ":")
+			for _, f := range []string{"bytes.Index(", "bytes.IndexByte(", "bytes.IndexAny(", "bytes.LastIndex(", "bytes.LastIndexByte("} {
+				if i := strings.Index(low, f); i >= 0 && !strings.HasPrefix(low[i+len(f):], cur+",") {
+					okSnap = false
+					snapMsg = "the window " + cur + " is cut at an index that was searched for in a different slice (" + low + "): the cut no longer falls on a line boundary of the window, so the tail of an output line can look like a prompt at the start of the window"
+				}
+			}
+			cur += rest[:end+1]
 			rest = rest[end+1:]
 		}
 	}
+	r.Check(okSnap, rule, "window snapped to a line boundary of itself", c.Pos(prb.Pos()), "the newline index is searched in the slice it cuts", "processReadBuf: "+snapMsg)
 	r.Check(okSuffix && okWhole, rule, "window is a suffix of the buffer", c.Pos(prb.Pos()), "whole buffer when short, else a tail slice", "processReadBuf: the search window is not always a suffix of the accumulated buffer: "+msg)
 }
 
